@@ -18,3 +18,8 @@ func init() {
 		}
 	}
 }
+
+// newRealNetlink builds the real NetlinkClient on top of the simulated socket.
+func newRealNetlink(sock *simSocket, pid uint32, buf []byte) *libaudit.NetlinkClient {
+	return libaudit.NewVerifNetlinkClient(sock, pid, buf, nil)
+}
